@@ -2,6 +2,7 @@
 import itertools
 
 from .. import sx, gen, lib, meaning as M, monitors, minimise
+from . import execcommon as X
 from .common import prog_features, sig, case_prog
 
 RULE = ("parser-produced circuits x override dictionaries x pass sequences over {S=expand_subcircuits, L=fill_in_let(ov), "
@@ -14,7 +15,7 @@ RULE = ("parser-produced circuits x override dictionaries x pass sequences over 
 ASSUMPTIONS = ["a sequence in which a pass raises JaqalError is 'not applicable' and only counted",
                "reference full meaning from vf/meaning.py"]
 TIERS = {"quick": {"shards": 8, "budget_s": 75}, "thorough": {"shards": 16, "budget_s": 480}}
-REQUIRE = {"parser-flags-with-another-option": 500, "macro-named-like-a-bounding-gate": 30, "sequences-judged": 3000, "idempotence-checked": 1000, "parser-flag-combinations": 500, "reparse-checked": 3000,
+REQUIRE = {"alias-chain-programs": 150, "programs-loading-their-gates-from-a-pulse-module": 50, "programs-with-the-gate-set-in-force": 150, "parser-flags-with-another-option": 500, "macro-named-like-a-bounding-gate": 30, "sequences-judged": 3000, "idempotence-checked": 1000, "parser-flag-combinations": 500, "reparse-checked": 3000,
            "seq-len-4": 300}
 
 PASSES = "SLMA"
@@ -83,7 +84,13 @@ def judge(case):
     if not sx.legal_nesting(prog):
         return "skipped:illegal-nesting", [], {}
     text = sx.to_text(prog)
-    o = lib.outcome(lib.parse, text)
+    # with a gate set in force, the parse and every rebuild a pass makes work with the same definition objects
+    if case.get("native") == "usepulses":
+        # the program names its gates itself and they are loaded from that module (as a user's program does)
+        text = X.PULSE_LINE + text
+        o = lib.outcome(lib.parse, text, autoload_pulses=True)
+    else:
+        o = lib.outcome(lib.parse, text, X.native() if case.get("native") else None)
     if o[0] != "ok":
         return "skipped:input-rejected:" + o[1], [], {}
     c = o[1]
@@ -166,7 +173,11 @@ def judge_flags(case):
     ov = dict(case.get("ov") or {})
     fl = case["flags"]
     text = sx.to_text(prog)
-    o = lib.outcome(lib.parse, text)
+    native = X.native() if case.get("native") else None
+    auto = {}
+    if case.get("native") == "usepulses":
+        text, native, auto = X.PULSE_LINE + text, None, {"autoload_pulses": True}
+    o = lib.outcome(lib.parse, text, native, **auto)
     if o[0] != "ok":
         return "skipped:input-rejected", [], {}
     c = o[1]
@@ -188,11 +199,11 @@ def judge_flags(case):
     a = lib.outcome(compose)
     if case.get("opt") == "return_usepulses":
         # the parser's other documented options do not change what the expansion flags do
-        b = lib.outcome(lambda: lib.parse(text, override_dict=ov or None, return_usepulses=True, **fl)[0])
+        b = lib.outcome(lambda: lib.parse(text, native, override_dict=ov or None, return_usepulses=True, **dict(fl, **auto))[0])
     elif case.get("opt") == "file":
-        b = lib.outcome(parse_as_file, text, dict(fl, override_dict=ov or None))
+        b = lib.outcome(parse_as_file, text, dict(fl, override_dict=ov or None, native=native, **auto))
     else:
-        b = lib.outcome(lib.parse, text, override_dict=ov or None, **fl)
+        b = lib.outcome(lib.parse, text, native, override_dict=ov or None, **dict(fl, **auto))
     fails = []
     if a[0] != b[0]:
         if "exc" in (a[0], b[0]):
@@ -290,20 +301,51 @@ def shard(ctx):
                         p_hostile_names=0.0, macro_sub=rng.random() < 0.55, p_sub_count=0.8, p_usepulses=0.2, p_let_reg=0.4, p_let_count=0.5,
                         p_let_index=0.5, wild_numbers=rng.random() < 0.3, allow_reg_args=rng.random() < 0.3)
         prog = g.program()
-        if rng.random() < 0.12:
+        use_native = i % 4 == 0
+        if use_native:
+            g = gen.ExecGen(rng, n_macros=(0, 3), n_lets=(1, 4), n_maps=(1, 4), max_depth=rng.choice([2, 3]), p_shadow=0.3, p_let_reg=0.4,
+                            p_let_count=0.5, p_let_index=0.5, p_let_arg=0.5, p_sub_count=0.8, macro_sub=rng.random() < 0.5)
+            prog = g.program()
+            rec.count("programs-with-the-gate-set-in-force")
+            nat = "usepulses" if rng.random() < 0.5 else True
+            if nat == "usepulses":
+                rec.count("programs-loading-their-gates-from-a-pulse-module")
+        if i % 4 == 2:
+            # alias-chain programs (every element of the last alias used in every statement position, also indexed by a
+            # macro parameter), chains of whole / sliced / counting-down aliases: see C06's build_program
+            from . import c06
+
+            nq = rng.randint(2, 5)
+            chain, cur = [], nq
+            for _ in range(rng.randint(1, 3)):
+                spec = rng.choice(c06.level_specs(cur))
+                if rng.random() < 0.3:
+                    spec = ("slice", cur - 1, -1, -1)  # the whole source back to front
+                chain.append(spec)
+                cur = c06.spec_len(spec, cur)
+            cov = {}
+            prog, _refs = c06.build_program(nq, tuple(chain), rng.choice(["lit", "default", "let", "override"]), rng, rng.randrange(8), cov)
+            use_native, nat = True, True
+            chain_ov = cov
+            rec.count("alias-chain-programs")
+        else:
+            chain_ov = None
+        if not use_native and rng.random() < 0.12:
             # without a gate set a macro may carry the name of a bounding gate of subcircuit blocks
             ms = [x[1] for x in prog[1:] if x[0] == "macro"]
             if ms:
                 prog = rename_macro(prog, rng.choice(ms), rng.choice(["prepare_all", "measure_all"]))
                 rec.count("macro-named-like-a-bounding-gate")
         ov = make_override(rng, prog) if rng.random() < 0.6 else {}
+        if chain_ov is not None:
+            ov = chain_ov
         seqs = rng.sample(SEQS, 12 if ctx.quick else 24) if (ctx.quick or i % 10) else SEQS
         for seq in seqs:
-            process(ctx, {"prog": prog, "ov": ov, "seq": seq}, seen)
+            process(ctx, dict({"prog": prog, "ov": ov, "seq": seq}, **({"native": nat} if use_native else {})), seen)
         for fl in ({"expand_macro": True}, {"expand_let": True}, {"expand_let_map": True},
                    {"expand_macro": True, "expand_let": True}, {"expand_macro": True, "expand_let_map": True},
                    {"expand_let": True, "expand_let_map": True}):
-            fc = {"prog": prog, "ov": ov, "flags": fl}
+            fc = dict({"prog": prog, "ov": ov, "flags": fl}, **({"native": nat} if use_native else {}))
             r = rng.random()
             if r < 0.3:
                 fc["opt"] = "return_usepulses"
